@@ -166,6 +166,12 @@ def r14_1(ctx, g):
                 elif isinstance(t, ast.Tuple) and all(isinstance(e, ast.Name) for e in t.elts) and isinstance(st.value, (ast.Subscript, ast.Name)):
                     for k_, e in enumerate(t.elts):
                         env.setdefault(e.id, []).append(ast.Subscript(value=st.value, slice=ast.Constant(value=k_), ctx=ast.Load()))
+        # a step carried from one iteration into the next (`n1 = n2` before `n2 = path[i]`): the substitution below would read
+        # the new value of n2 into n1; which two steps are compared is then not established by this rule
+        order_ = [st for st in pl0.body if isinstance(st, ast.Assign) and len(st.targets) == 1 and isinstance(st.targets[0], ast.Name)]
+        for i_, st in enumerate(order_):
+            if isinstance(st.value, ast.Name) and any(norm(later.targets[0]) == st.value.id for later in order_[i_ + 1 :]):
+                raise AnalysisError("R14.1", pe.where(st), f"`{norm(st)}` carries a step over from the previous iteration: which two consecutive steps each look-up compares is not established")
         env = {k_: v[0] for k_, v in env.items() if len(v) == 1}
 
         import copy as _copy
@@ -237,6 +243,17 @@ def r14_1(ctx, g):
                     if reads_sides and not reads_far:
                         ctx.violated("R14.1", pe.where(c_), f"the step is accepted through `{norm(c_)[:60]}`, which only asks whether the other node's id occurs on that side and never compares the far side stored with the entry: with two links between the same nodes on different sides (`L a + b +` and `L b + a +`) or a self-link, a step that follows no single link (`>a<b`) is accepted and spelled", key_of(pe, f"walk-by-id-only:{c_.func.attr}"))
                         return
+        if pair_loops:
+            # a second look-up that accepts the step when the other node's id alone is found among the entries of a side
+            for lp_ in walk_own(pair_loops[0]):
+                if isinstance(lp_, ast.For) and isinstance(lp_.target, ast.Name) and any(isinstance(x, ast.Call) and norm(x.func) == "getattr" for x in ast.walk(lp_.iter)):
+                    ev_ = lp_.target.id
+                    for iff in [y for b in lp_.body for y in ast.walk(b) if isinstance(y, ast.If)]:
+                        idx = {const_value(x.slice, None) for x in ast.walk(iff.test) if isinstance(x, ast.Subscript) and norm(x.value) == ev_}
+                        accepts = any((isinstance(y, ast.Assign) and const_value(y.value, None) is True) or (isinstance(y, ast.Return) and const_value(y.value, None) is True) for b in iff.body for y in ast.walk(b))
+                        if idx == {0} and accepts:
+                            ctx.violated("R14.1", pe.where(iff), f"a step is accepted when `{norm(iff.test)[:50]}`: only the id stored with the adjacency entry is compared, not the side at which the link enters the other node, so a step that follows no link in that orientation (`<a>b` when only `L a + b +` exists) is accepted and spelled", key_of(pe, f"walk-by-id-only:{norm(iff.test)[:30]}"))
+                            return
         if missing:
             raise AnalysisError("R14.1", pe.where(), "the walk check is not in a recognised form (cannot find " + ", ".join(missing) + "): how the table row is selected and used is not decided")
     ctx.check(uses_ok and ok_get and cmp_ok, "R14.1", pe.where(), "the table row is selected by the orientation characters of the two steps; the set of the previous node named by the row is searched for (next node id, far side of the row)", key_of(pe, f"table-use:{uses_ok}:{ok_get}:{cmp_ok}"))
